@@ -197,6 +197,19 @@ func (x *Exec) heapsWrittenIn(fr *Frame, blocks map[*ssa.BasicBlock]bool, seen m
 					continue
 				}
 				x.markPtrHeaps(in.Addr, pt.Elem(), out)
+			case *ssa.MakeClosure:
+				// the closure may run inside the region (errgroup worker, deferred call, direct call)
+				if cf, ok := in.Fn.(*ssa.Function); ok && !seen[cf] {
+					seen[cf] = true
+					bs := map[*ssa.BasicBlock]bool{}
+					for _, cb := range cf.Blocks {
+						bs[cb] = true
+					}
+					if x.heapsWrittenIn(fr, bs, seen, out) {
+						return true
+					}
+				}
+				out["$top"] = true
 			case *ssa.Alloc, *ssa.MakeSlice:
 				out["$top"] = true
 				if a, ok := in.(*ssa.Alloc); ok {
@@ -250,6 +263,11 @@ func (x *Exec) heapsWrittenIn(fr *Frame, blocks map[*ssa.BasicBlock]bool, seen m
 					continue
 				case "sort.Stable", "sort.Sort":
 					return true
+				case "(*golang.org/x/sync/errgroup.Group).Go":
+					out["G_egerr"] = true
+					continue
+				case "(*golang.org/x/sync/errgroup.Group).Wait":
+					continue
 				}
 				if callee.Blocks == nil {
 					continue
